@@ -59,7 +59,7 @@ var properties = map[string]*propSpec{
 		Rule: "runs of scenario byz (a node that corrupts 1-3 tape-chosen outgoing frames per run); distinct = distinct canonical-log fingerprint; non-trivial = at least one mutation fired and at least one operation completed"},
 	"C07": {Level: "exploration", Scenarios: []scenRef{{Name: "wr", quickS: 20, thoroughS: 600}}, CrashProperty: "C07",
 		Rule: "runs of scenario wr; distinct = distinct canonical-log fingerprint; non-trivial = at least one write fault, cancel or park fired and at least one operation completed"},
-	"C13": {Level: "exploration", Scenarios: []scenRef{{Name: "retry", quickS: 20, thoroughS: 600}},
+	"C13": {Level: "exploration", Scenarios: []scenRef{{Name: "retry", quickS: 20, thoroughS: 600}, {Name: "life", quickS: 8, thoroughS: 120}},
 		Rule: "runs of scenario retry (scripted per-attempt outcomes x retry policy x speculative policy x tape-chosen host order, exact and relaxed configurations); distinct = distinct canonical-log fingerprint; non-trivial = at least one failed attempt, cancel, connection loss or park occurred and at least one operation completed"},
 	"C14": {Level: "exploration", Scenarios: []scenRef{{Name: "prep", quickS: 20, thoroughS: 600}},
 		Rule: "runs of scenario prep (concurrent executors of 1-3 statements, small caches, PREPARE failures, UNPREPARED answers after node restarts, parks inside prepareStatement); distinct = distinct canonical-log fingerprint; non-trivial = at least one fault or park fired and at least one operation completed"},
